@@ -1,0 +1,42 @@
+//go:build verif
+
+package eval
+
+import (
+	"io"
+
+	"grol.io/grol/object"
+)
+
+// Verification-only accessors (control projection of the interpreter state for /verif,
+// properties C05 and C10). Add-only: nothing here is referenced by the regular build.
+
+// VerifNumReg returns the number of registers allocated in the root (session) environment.
+func (s *State) VerifNumReg() int {
+	return object.VerifNumReg(s.rootEnv)
+}
+
+// VerifCurNumReg returns the number of registers allocated in the current environment.
+func (s *State) VerifCurNumReg() int {
+	return object.VerifNumReg(s.env)
+}
+
+// VerifDepth returns the current recursion depth counter.
+func (s *State) VerifDepth() int {
+	return s.depth
+}
+
+// VerifAtRoot tells whether the current environment is the session's root environment.
+func (s *State) VerifAtRoot() bool {
+	return s.env == s.rootEnv
+}
+
+// VerifOutIs tells whether the state's output writer is w.
+func (s *State) VerifOutIs(w io.Writer) bool {
+	return s.Out == w
+}
+
+// VerifContextLive tells whether the evaluation context is set and neither cancelled nor expired.
+func (s *State) VerifContextLive() bool {
+	return s.Context != nil && s.Context.Err() == nil
+}
